@@ -156,6 +156,41 @@ theorem sortKw_perm (l l' : List (Str × Arg)) (hp : l.Perm l') (hn : (l.map (·
   rw [mem_sortKw, mem_sortKw]
   exact hp.mem_iff
 
+theorem lookupKw_some_iff (k : Str) : ∀ (l : List (Str × Arg)), (l.map (·.1)).Nodup → ∀ a,
+    (lookupKw k l = some a ↔ (k, a) ∈ l)
+  | [], _, a => by simp [lookupKw]
+  | (k', b) :: rest, hn, a => by
+    simp only [List.map_cons, List.nodup_cons] at hn
+    simp only [lookupKw, List.mem_cons, Prod.mk.injEq]
+    by_cases hk : k' = k
+    · subst hk
+      simp only [if_true, Option.some.injEq, true_and]
+      constructor
+      · intro h; exact Or.inl h.symm
+      · rintro (h | h)
+        · exact h.symm
+        · exact absurd (List.mem_map.mpr ⟨(k', a), h, rfl⟩) hn.1
+    · simp only [hk, if_false]
+      rw [lookupKw_some_iff k rest hn.2 a]
+      constructor
+      · intro h; exact Or.inr h
+      · rintro (h | h)
+        · exact absurd h.1.symm hk
+        · exact h
+
+theorem lookupKw_perm (k : Str) (l l' : List (Str × Arg)) (hp : l.Perm l') (hn : (l.map (·.1)).Nodup) :
+    lookupKw k l = lookupKw k l' := by
+  have hn' : (l'.map (·.1)).Nodup := (hp.map (·.1)).nodup_iff.mp hn
+  apply Option.ext
+  intro a
+  rw [lookupKw_some_iff k l hn, lookupKw_some_iff k l' hn']
+  exact hp.mem_iff
+
+theorem filterKwargs_nodup (l : List (Str × Arg)) (hn : (l.map (·.1)).Nodup) :
+    ((filterKwargs l).map (·.1)).Nodup := by
+  unfold filterKwargs
+  exact List.Nodup.sublist (List.Sublist.map _ List.filter_sublist) hn
+
 /-! ## rows returned -/
 
 theorem selectRows_eq (fields : List Str) (ws : List Where) (ps : List Value) :
@@ -238,7 +273,7 @@ theorem sortRows_perm (o : OrderSpec) : ∀ (l out : List Cells), sortRows o l =
 
 /-- every condition the caller wrote is true on the row -/
 def satisfied (row : Row) (call : Call) : Bool :=
-  decide (andAll (intendeds row (call.args.filterMap id) ++ intendedKw row call.kwargs) = some .tt)
+  decide (andAll (intendeds row (call.args.filterMap id) ++ intendedKw row (filterKwargs call.kwargs)) = some .tt)
 
 theorem inSem_tt_iff (x : Value) (vs : List Value) : inSem x vs = .tt ↔ ∃ v ∈ vs, cmp3 .eq x v = .tt := by
   induction vs with
